@@ -42,9 +42,15 @@ func (e *Env) runBehaviour(prop string, cells []*scen.Cell, mode string, accept 
 		e.Rep.Report(report.Finding{Key: prop + "|driver-batch-failed", CellID: "batch", What: err.Error()})
 	}
 	funcs, calls, nt := e.reportBehave(prop, results, bc, keyPrefix, accept)
+	var driverSkips []string
 	for id, why := range br.Skipped {
 		skipped["driver: "+clip(why, 60)]++
-		_ = id
+		if len(driverSkips) < 6 {
+			driverSkips = append(driverSkips, id+": "+clip(why, 200))
+		}
+	}
+	if len(driverSkips) > 0 {
+		e.Rep.Set("driver_skip_examples", driverSkips)
 	}
 	e.Rep.Set("functions_executed", funcs)
 	e.Rep.Set("generated_function_calls", calls)
